@@ -294,7 +294,7 @@ end
 
 /-! ### which formatter `decode` uses: `PageElement.formatter_for_name`, `PageElement._is_xml` (bs4/element.py) -/
 
-/-- `PageElement._is_xml`: `known_xml` of the element if it is not `None`, else the parent's answer; at an element
+/-- `PageElement._is_xml` (a loop up the parent chain): `known_xml` of the element if it is not `None`, else the parent's answer; at an element
     without parent `getattr(self, "is_xml", False)` (`rootAttr`). `chain` = the `known_xml` values from the element up
     to the root of its tree. -/
 def isXmlImpl (rootAttr : Bool) : List (Option Bool) → Bool
